@@ -416,9 +416,13 @@ Section Opt.
   Definition set_knobs_from_x (x : list F) (s : state) : state :=
     set_knobs s (fst (write_knobs false (va s) (c_lim cf) (x_to_knobs x) (knobs s))).
 
+  (* self.set_knobs_from_x(self.solver.x) *)
+  Definition restore_x (s1 : state) : state :=
+    match sx s1 with Some xs => set_knobs_from_x xs s1 | None => s1 end.
+
   (* Optimize.step after solver.step(): set_knobs_from_x(solver.x), then the log row *)
   Definition log_step (s1 : state) : state :=
-    let s2 := match sx s1 with Some xs => set_knobs_from_x xs s1 | None => s1 end in
+    let s2 := restore_x s1 in
     set_log s2 (log s2 ++ [mkRow (knobs s2) (va s2) (ta s2) (pen_after s2) (lres s2) (ltw s2)
                                  (map negb (mfl s2)) (alpha_last s2) 0%N]).
 
@@ -433,9 +437,15 @@ Section Opt.
                   | Some x' => if allclose_masked (va s) x x' then s
                                else set_sx s (Some x) (map (fun _ => true) x)
                   end in
-        bind (jac_step fuel (this_broyden b i_step) s0) (fun s1 =>
-        let s3 := log_step s1 in
-        if lpwt s3 then Ok s3 else step_loop fuel n' (S i_step) b s3)
+        (* "try: self.solver.step(...) except Exception: self.set_knobs_from_x(self.solver.x); raise":
+           a failing solver step leaves the knobs on the last accepted point *)
+        match jac_step fuel (this_broyden b i_step) s0 with
+        | Ok s1 =>
+            let s3 := log_step s1 in
+            if lpwt s3 then Ok s3 else step_loop fuel n' (S i_step) b s3
+        | Err e s1 => Err e (restore_x s1)
+        | Div => Div
+        end
     end.
 
   (* Optimize.step between the temporary enable/disable and their undoing *)
